@@ -153,7 +153,17 @@ def gen(rng, idx, tier):
             opts["flattenComponents"] = True
         if rng.random() < 0.3:
             names = [g["name"] for g in case["ufo"]["glyphs"] if g["name"] != ".notdef"]
-            opts["skipExportGlyphs"] = rng.sample(names, 1)
+            skip = rng.sample(names, 1)
+            nested = [(g["name"], c["base"]) for g in case["ufo"]["glyphs"]
+                      for c in g["components"] if g["name"] != ".notdef" and c["base"] != ".notdef"]
+            if nested and rng.random() < 0.6:
+                # a non-exported composite AND its (also non-exported) base
+                skip = list(rng.choice(nested))
+                case["nested_skip"] = True
+            if rng.random() < 0.5:
+                opts["skipExportGlyphs"] = skip
+            else:
+                case["ufo"]["lib"]["public.skipExportGlyphs"] = skip
             case["ufo"]["features"] = "languagesystem DFLT dflt;\n"
         if rng.random() < 0.3:
             opts["useProductionNames"] = rng.random() < 0.5
@@ -407,6 +417,8 @@ def _run(case, bump, counters, tmp):
             bump("layer_compile_" + case["layer_stratum"])
         if case.get("own_dotted_circle"):
             bump("dotted_circle_glyph_in_source")
+        if case.get("nested_skip"):
+            bump("skipped_composite_of_skipped_base")
     if doc is not None and not fonts:
         seen = []
         for s in doc.sources:
